@@ -452,13 +452,13 @@ pub fn run(c: &Value) -> Value {
             let mut texts = vec![];
             for _ in 0..reps {
                 let fresh = narsese_of(&c["v"]).unwrap();
-                texts.push(match guarded(|| typst_of(&fresh)) { Ok(s) => json!({"r":"ok","s":s}), Err(p) => json!({"r":"panic","msg":p}) });
+                texts.push(match guarded(|| typst_of(&fresh)) { Ok(s) => json!({"r":"ok","s":s,"pv":narsese_to(&fresh)}), Err(p) => json!({"r":"panic","msg":p}) });
             }
             // parts rendered alone
             let parts = match &v {
                 en::Narsese::Term(_) => json!({}),
                 en::Narsese::Sentence(s) => sentence_parts(s),
-                en::Narsese::Task(t) => { let mut p = sentence_parts(t.get_sentence()); p["budget"] = json!(guarded(|| FormatterTypst.format(narsese::api::GetBudget::get_budget(t))).ok()); p }
+                en::Narsese::Task(t) => { let mut p = sentence_parts(t.get_sentence()); p["budget"] = part(guarded(|| FormatterTypst.format(narsese::api::GetBudget::get_budget(t)))); p }
             };
             json!({"texts":texts,"parts":parts,"back":narsese_to(&v)})
         }
@@ -495,13 +495,18 @@ pub fn run(c: &Value) -> Value {
     }
 }
 
+fn part(r: Result<String, String>) -> Value {
+    match r {
+        Ok(s) => json!({"r":"ok","s":s}),
+        Err(p) => json!({"r":"panic","msg":p}),
+    }
+}
 fn sentence_parts(s: &en::Sentence) -> Value {
-    use narsese::api::{GetPunctuation, GetStamp, GetTerm, GetTruth};
+    use narsese::api::{GetPunctuation, GetStamp, GetTruth};
     json!({
-        "term": guarded(|| FormatterTypst.format(s.get_term())).ok(),
-        "punct": guarded(|| FormatterTypst.format(s.get_punctuation())).ok(),
-        "stamp": guarded(|| FormatterTypst.format(s.get_stamp())).ok(),
-        "truth": guarded(|| FormatterTypst.format(s.get_truth().unwrap_or(&en::Truth::Empty))).ok(),
+        "punct": part(guarded(|| FormatterTypst.format(s.get_punctuation()))),
+        "stamp": part(guarded(|| FormatterTypst.format(s.get_stamp()))),
+        "truth": part(guarded(|| FormatterTypst.format(s.get_truth().unwrap_or(&en::Truth::Empty)))),
     })
 }
 
